@@ -233,7 +233,12 @@ func c19EndlessRun(c c19EndlessCase) Verdict {
 	if c.Position == "after-failed-chunk" {
 		escript.Data = []harness.DataPlan{{Read: harness.ReadPlan{Limit: 0}, Result: harness.Decision{Kind: "smtp", Code: 452, Enh: [3]int{4, 3, 1}, Msg: "no space"}}}
 	}
-	r := harness.NewRig(harness.Config{MaxLineLength: c.L, Debug: c.Debug}, escript)
+	ecfg := harness.Config{MaxLineLength: c.L, Debug: c.Debug}
+	if c.Position == "auth-response" {
+		ecfg.AllowInsecureAuth = true
+		escript.AuthSession, escript.Mechs = true, []string{"PLAIN"}
+	}
+	r := harness.NewRig(ecfg, escript)
 	w, _ := r.Dial()
 	if st := w.WaitQuiet(); st != harness.QIdle {
 		w.Finish()
@@ -249,6 +254,12 @@ func c19EndlessRun(c c19EndlessCase) Verdict {
 		pre = []byte("EHLO cli\r\nMAIL FROM:<s@x>\r\nRCPT TO:<r@x>\r\nBDAT 3\r\nabc")
 	case "after-last":
 		pre = []byte("EHLO cli\r\nMAIL FROM:<s@x>\r\nRCPT TO:<r@x>\r\nBDAT 3 LAST\r\nabc")
+	case "auth-response":
+		// the server has sent a 334 and waits for the client's response line
+		pre = []byte("EHLO cli\r\nAUTH PLAIN\r\n")
+	case "data-body":
+		// inside a message: its lines are limited like command lines
+		pre = []byte("EHLO cli\r\nMAIL FROM:<s@x>\r\nRCPT TO:<r@x>\r\nDATA\r\n")
 	}
 	if len(pre) > 0 {
 		if _, st := w.Exchange(pre); st != harness.QIdle {
@@ -567,7 +578,7 @@ func TestC19(t *testing.T) {
 	// endless lines: small finite set
 	idx := 0
 	for _, l := range []int{64, 2000} {
-		for _, pos := range []string{"first", "greeted", "between-chunks", "after-last", "after-failed-chunk"} {
+		for _, pos := range []string{"first", "greeted", "between-chunks", "after-last", "after-failed-chunk", "auth-response", "data-body"} {
 			for _, seg := range []int{4096, 65536} {
 				idx++
 				if !mine(idx) {
